@@ -8,6 +8,7 @@ package iface
 //@ func Datatype.ResetSnapshot
 //@   mode math
 //@   props C13
+//@   targets *orda.counter, *orda.ordaMap, *orda.list
 //@   modifies datatypes.SnapshotDatatype.Snapshot
 
 //@ func Datatype.GetSnapshot
